@@ -1,2 +1,177 @@
-(* C10 — placeholder until the proofs land (step 2). *)
-From GP Require Import Base C10Model.
+(* C10 — tcpassembly: the bytes of one direction are delivered in order, exactly once,
+   gaps announced.  Property theorems only; each is closed by a lemma of
+   Proofs/C10Arith.v / Proofs/C10Proofs.v about the executable model Model/C10Model.v
+   (a transcription of tcpassembly/assembly.go, with the late-SYN repair, for one
+   connection key).
+
+   Vocabulary (Proofs/C10Proofs.v):
+     sq i o            sequence number of stream offset o for initial sequence number i
+     sub S o n         the slice S[o, o+n) of the sender's stream
+     op_ok i S op      a segment consistent with (i,S): the SYN is (seq = i, S[0,n)), any other
+                       segment is (seq = sq i o, S[o,o+n)); flushes are unconstrained
+     chunk S p r p'    the element r handed to the stream is right at absolute position p:
+                       Start: p = None, Skip = 0, bytes = S[0,len), p' = len;
+                       Skip = -1: p = None (nothing delivered before on this stream) and the
+                         bytes are S[o,o+len) for some o, p' = o+len;
+                       otherwise p = Some a, Skip >= 0, bytes = S[a+Skip, a+Skip+len), p' = a+Skip+len
+     trace_ok S nolimit p l   for every step of the history l: no panic; elements satisfy chunk
+                       in order, the position restarting at None after ReassemblyComplete;
+                       and when no page limit is set every Assemble step delivers Skip = 0 only *)
+From GP Require Import Base C10Model C10Arith C10Proofs.
+From Coq Require Import Sorted Lia ZifyBool.
+Open Scope Z_scope.
+
+(* ---- Sequence arithmetic ------------------------------------------------------------ *)
+
+(* Difference is exact offset subtraction inside a window of 2^30, wherever s lies in the
+   32-bit space (including across the wrap and the three quarter boundaries). *)
+Theorem C10_diff_window : forall s d,
+  0 <= s < 4294967296 -> - 1073741824 < d < 1073741824 ->
+  difference s ((s + d) mod 4294967296) = d.
+Proof. exact diff_window. Qed.
+Print Assumptions C10_diff_window.
+
+Theorem C10_diff_antisym : forall s t, difference s t = - difference t s.
+Proof. exact diff_antisym. Qed.
+
+Theorem C10_add_mod : forall s t, seq_add s t = (s + t) mod 4294967296.
+Proof. exact seq_add_mod. Qed.
+
+Theorem C10_add_add : forall s a b, seq_add (seq_add s a) b = seq_add s (a + b).
+Proof. exact seq_add_add. Qed.
+
+Theorem C10_add_range : forall s t, 0 <= seq_add s t < 4294967296.
+Proof. exact seq_add_range. Qed.
+
+(* the int64 computations of Difference cannot overflow on uint32 operands or invalidSequence *)
+Theorem C10_no_int64_overflow : forall s t, -1 <= s < 4294967296 -> -1 <= t < 4294967296 ->
+  - 8589934592 < difference s t < 8589934592.
+Proof. exact diff_bound. Qed.
+Print Assumptions C10_no_int64_overflow.
+
+(* ---- byteSpan ------------------------------------------------------------------------ *)
+(* With the stream position at offset a and data S[o,o+n) within 2^30 of it, byteSpan returns
+   exactly the part at or after a, and the new position max a (o+n), as sequence numbers. *)
+Theorem C10_byteSpan : forall i S a o n,
+  0 <= o -> 0 <= n -> o + n <= lenZ S -> 0 <= a -> - 1073741824 < a - o < 1073741824 ->
+  byte_span (sq i a) (sq i o) (sub S o n) =
+    if a <=? o then (sub S o n, sq i (o + n))
+    else if o + n <? a then ([], sq i a)
+    else (sub S a (o + n - a), sq i (o + n)).
+Proof. exact byte_span_spec. Qed.
+Print Assumptions C10_byteSpan.
+
+(* ---- the in-order path ---------------------------------------------------------------- *)
+Theorem C10_inorder_path : forall st c ns fin rst payload ts,
+  s_dead st = false -> s_conn st = Some c -> c_queue c = [] -> c_nextSeq c = ns ->
+  0 <= ns < 4294967296 -> (payload <> [] \/ fin = true \/ rst = true) ->
+  let r := step st (Segment ns false fin rst payload ts) in
+  o_calls (snd r) = [[mkR payload 0 false (rst || fin) ts 0]] /\
+  o_new (snd r) = false /\ o_panic (snd r) = false /\ o_done (snd r) = (rst || fin) /\
+  (if rst || fin then s_conn (fst r) = None
+   else exists c', s_conn (fst r) = Some c' /\ c_nextSeq c' = seq_add ns (lenZ payload) /\ c_queue c' = []).
+Proof. exact inorder_path. Qed.
+Print Assumptions C10_inorder_path.
+
+(* ---- buffered pages -------------------------------------------------------------------- *)
+(* pagesFromTCP cuts the payload into pages that together are the payload (the loop's fuel suffices) *)
+Theorem C10_pages_cover : forall seq bytes,
+  concat (map snd (split_pages (S (length bytes)) seq bytes)) = bytes.
+Proof. intros. apply split_pages_concat. apply Nat.lt_succ_diag_r. Qed.
+
+(* traverseConn + pushBetween put new pages at the place that keeps the queue ordered: with the
+   queue sorted by offset (all offsets within 2^30), everything before the insertion point is at
+   or before the new offset, everything after it strictly after; so inserting a one-page segment
+   keeps the queue sorted. *)
+Theorem C10_insert_sorted : forall i hi q offs o a b,
+  hi < 1073741824 -> Forall2 (at_off i hi) q offs -> StronglySorted Z.le offs -> 0 <= o <= hi ->
+  traverse q (sq i o) = (a, b) ->
+  exists oa ob, offs = oa ++ ob /\ Forall2 (at_off i hi) a oa /\ Forall2 (at_off i hi) b ob /\
+                Forall (fun x => x <= o) oa /\ Forall (fun x => o < x) ob /\
+                StronglySorted Z.le (oa ++ o :: ob).
+Proof.
+  intros i hi q offs o a b Hhi HF HS Ho HT.
+  destruct (traverse_sorted i hi Hhi q offs o a b HF HS Ho HT) as (oa & ob & E & Ha & Hb & Hle & Hgt).
+  exists oa, ob. repeat split; try assumption. apply insert_one_sorted; [rewrite <- E; exact HS|exact Hle|exact Hgt].
+Qed.
+Print Assumptions C10_insert_sorted.
+
+(* Appendix A.2 (3) as first written ("queue sorted by offset") does NOT hold once a packet
+   spans several pages: the pages of one packet are inserted as a block in front of a page that
+   lies between them.  (The stream theorem below does not need sortedness.) *)
+Theorem C10_multipage_queue_not_sorted :
+  exists ops c, s_conn (fold_left (fun st o => fst (step st o)) ops (init 0 0)) = Some c /\
+                map p_seq (c_queue c) = [106; 2006; 111].
+Proof.
+  exists [Segment 100 true false false [] 1; Segment 111 false false false [1] 2;
+          Segment 106 false false false (repeat 7 1901) 3].
+  eexists. vm_compute. split; reflexivity.
+Qed.
+
+(* ---- the stream theorem ---------------------------------------------------------------- *)
+(* PARTIAL with respect to C10_stream_statement below only in the form of the window
+   hypothesis: here the whole stream is shorter than 2^30 bytes (so every set of live offsets
+   lies in a window < 2^30); the initial sequence number i is arbitrary (wrap and quarter
+   boundaries included), as are segmentation, arrival order, duplicates, overlapping
+   retransmissions, SYN first/late/absent/with data, FIN/RST anywhere, FlushOlderThan/FlushAll
+   interleavings, timestamps and both page limits.  Conclusion: trace_ok (see the header). *)
+Theorem C10_stream_partial : forall i S mp mt ops,
+  0 <= i < 4294967296 -> lenZ S < 1073741824 -> Forall (op_ok i S) ops ->
+  trace_ok S ((mp <=? 0) && (mt <=? 0)) None (outs (init mp mt) ops).
+Proof.
+  intros i S mp mt ops Hi HS Hops.
+  exact (stream_inv i S Hi HS ops (init mp mt) None (init_ok i S mp mt) Hops).
+Qed.
+Print Assumptions C10_stream_partial.
+
+(* `outs` pairs each operation with the model's output for it *)
+Theorem C10_outs_are_the_run : forall st ops, map snd (outs st ops) = map fst (run_trace st ops).
+Proof. exact outs_run. Qed.
+
+(* non-vacuity: a consistent history across the wrap with reordering, an overlapping
+   retransmission, a multi-page segment cut by the limit, a late SYN and a FIN *)
+Example C10_stream_nonvacuous :
+  let S := map (fun k => Z.of_nat k mod 251) (seq 0 2000) in
+  let i := 4294967290 in
+  let ops := [Segment (sq i 10) false false false (sub S 10 5) 1;
+              Segment i true false false [] 2;
+              Segment (sq i 0) false false false (sub S 0 12) 3;
+              Segment (sq i 40) false false false (sub S 40 1950) 4;
+              Segment (sq i 15) false false false (sub S 15 20) 5;
+              FlushOlderThan 5;
+              Segment (sq i 1990) false true false (sub S 1990 10) 6;
+              FlushAll] in
+  Forall (op_ok i S) ops /\
+  map (fun x => map (map (fun r => (r_skip r, lenZ (r_bytes r)))) (o_calls (snd x))) (outs (init 0 3) ops)
+  = [[]; [[(0, 0)]]; [[(0, 12); (0, 3)]]; []; [[(0, 20)]]; [[(5, 1900); (0, 50)]]; [[(0, 10)]]; []].
+Proof.
+  cbv zeta. split.
+  - assert (T : forall o seq (payload : list Z) (S : list Z) i fin ts,
+        (0 <=? o) && (o + lenZ payload <=? lenZ S) = true -> seq = sq i o -> payload = sub S o (lenZ payload) ->
+        op_ok i S (Segment seq false fin false payload ts)).
+    { intros o sq0 payload S0 i0 fin ts H1 H2 H3. exists o. apply andb_prop in H1. destruct H1 as [Ha Hb].
+      repeat split; try assumption; lia. }
+    repeat constructor.
+    + apply (T 10); vm_compute; reflexivity.
+    + vm_compute; discriminate.
+    + apply (T 0); vm_compute; reflexivity.
+    + apply (T 40); vm_compute; reflexivity.
+    + apply (T 15); vm_compute; reflexivity.
+    + apply (T 1990); vm_compute; reflexivity.
+  - vm_compute. reflexivity.
+Qed.
+
+(* ---- outside the window ---------------------------------------------------------------- *)
+(* The hypothesis is necessary: a segment 2^30+20 bytes ahead of the position (sequence numbers
+   3*2^30-10 and 10) is taken for old data by the quarter-space comparison and its bytes vanish
+   (an empty element, Skip = 0, nothing buffered), whereas 2^30-20 ahead it is buffered and later
+   delivered with the exact Skip. *)
+Theorem C10_window_necessary :
+  let far := [Segment 3221225461 true false false [] 1; Segment 10 false false false [7;8;9] 2; FlushAll] in
+  let near := [Segment 3221225461 true false false [] 1; Segment 4294967266 false false false [7;8;9] 2; FlushAll] in
+  map (fun x => map (map (fun r => (r_skip r, r_bytes r))) (o_calls (fst x))) (run 0 0 far)
+    = [[[(0, [])]]; [[(0, [])]]; []] /\
+  map (fun x => map (map (fun r => (r_skip r, r_bytes r))) (o_calls (fst x))) (run 0 0 near)
+    = [[[(0, [])]]; []; [[(1073741804, [7;8;9])]]].
+Proof. vm_compute. split; reflexivity. Qed.
+Print Assumptions C10_window_necessary.
